@@ -402,6 +402,7 @@ def tasks(tier, seed):
         for sk, gk in F.t3_shards(ns, ng, kinds):
             t.append(('maps', ('t3', nin, sk, gk), 0, 1, tier, seed))
     t.append(('tlc', tier))
+    if tier == 'thorough': t = F.slice_t3_tasks(t, 1500)
     return t
 
 
